@@ -216,18 +216,44 @@ def mpas_spec(m, rng):
     return mesh_spec(m, cell_lon=clon.tolist(), cell_lat=clat.tolist(), edge_order=order, dv=dv, dc=dc, radius=R)
 
 
+def apply_step(ux, g, step, spec):
+    """one step of a derivation chain on the real Grid (public API only)"""
+    import xarray as xr
+
+    op = step["op"]
+    if op == "isel":
+        size = int(getattr(g, step["dim"]))
+        idx = sorted({min(size - 1, int(f * size)) for f in step["pick"]})
+        return g.isel(**{step["dim"]: idx})
+    if op == "copy":
+        return g.copy()
+    if op == "chunk":
+        g.chunk(n_node=int(step["n"]), n_edge=int(step["n"]), n_face=int(step["n"]))
+        return g
+    if op == "read":
+        w = step["what"]
+        if w == "gradient":
+            ux.UxDataArray(np.arange(int(g.n_face), dtype=float) ** 1.5, dims=["n_face"], uxgrid=g).gradient().values
+        else:
+            getattr(g, w).values
+        return g
+    if op == "set_distances":
+        # the source assigns the tables through the public setters; this grid has not built its
+        # edge_face_connectivity (the values come from a twin built the same way)
+        twin = topology_grid(ux, spec)
+        g.edge_face_distances = xr.DataArray(np.asarray(twin.edge_face_distances.values, float).copy(), dims=["n_edge"])
+        if step.get("node_too"):
+            g.edge_node_distances = xr.DataArray(np.asarray(twin.edge_node_distances.values, float).copy(), dims=["n_edge"])
+        return g
+    raise ValueError(op)
+
+
 def build_grid(ux, src):
     """src: dict(kind='topology'|'mpas'|'file', …) → Grid"""
     if src["source"] == "topology":
         g = topology_grid(ux, src["mesh"])
-        dv = src.get("derive")
-        if dv is not None and dv["kind"] == "subset":
-            # a sub-grid: the distance tables of the parent may already exist when it is cut out
-            if dv.get("parent_distances_first"):
-                g.edge_node_distances.values, g.edge_face_distances.values
-            g = g.isel(n_face=[int(i) for i in dv["faces"]])
-        elif dv is not None and dv["kind"] == "chunk":
-            g.chunk(n_node=int(dv["n"]), n_edge=int(dv["n"]), n_face=int(dv["n"]))
+        for step in (src.get("derive") or {}).get("chain", []):
+            g = apply_step(ux, g, step, src["mesh"])
         return g
     if src["source"] == "mpas":
         return ux.open_grid(mpas_dataset(src["mesh"]), use_dual=bool(src["dual"]))
@@ -301,7 +327,7 @@ def truth_of(src):
     these directions.  None: the grid derives the positions itself (then the grid's own report is used)."""
     t = dict(node=None, face=None)
     mesh = src.get("mesh") if src.get("source") == "topology" else None
-    if not isinstance(mesh, dict) or (src.get("derive") or {}).get("kind") == "subset":
+    if not isinstance(mesh, dict) or any(st["op"] == "isel" for st in (src.get("derive") or {}).get("chain", [])):
         return t  # a sub-grid renumbers its elements: judged against the positions it reports itself
     for k in ("node", "face"):
         if mesh.get(f"{k}_xyz") is not None:
@@ -820,24 +846,50 @@ def coarse_srcs(rng, n_random, n_adversarial):
     return out
 
 
+READS = ["edge_face_connectivity", "edge_face_distances", "edge_node_distances", "gradient", "face_lon", "edge_node_connectivity"]
+
+
 def derived_srcs(rng, n):
-    """the same operators on a sub-grid (Grid.isel over a random face set, with or without the
-    parent's distance tables already computed) and on a grid converted to dask arrays by chunk()"""
+    """derivation CHAINS: 1–3 steps of isel over faces / nodes / edges, copy() and chunk(), with a
+    random subset of reads on every intermediate grid (none / edge_face_connectivity / the distance
+    tables / a gradient / …), the parent's tables computed first or not, or assigned through the
+    public setters without the connectivity ever having been built"""
     out = []
-    pool = [meshes.cube_sphere(2), meshes.patch(4, 3), meshes.hull(14, rng), meshes.dual_of(meshes.hull(12, rng)), meshes.icosa()]
+    pool = [meshes.cube_sphere(2), meshes.patch(4, 3), meshes.hull(14, rng), meshes.dual_of(meshes.hull(12, rng)),
+            meshes.icosa(), meshes.cube_sphere(3)]
     for i in range(n):
         m = rng.choice(pool)
         if rng.random() < 0.5:
             m = m.renumber(rng)
-        src = topo_src(m, rng, supply_centres=rng.random() < 0.4)
-        if i % 3 == 2:
-            src["derive"] = dict(kind="chunk", n=rng.choice([2, 3, 5, 1000]))
-            src["tag"] += "+chunk"
-        else:
-            k = rng.randint(2, max(2, m.n_face - 1))
-            src["derive"] = dict(kind="subset", faces=sorted(rng.sample(range(m.n_face), k)),
-                                 parent_distances_first=rng.random() < 0.5)
-            src["tag"] += "+subset" + ("(parent tables first)" if src["derive"]["parent_distances_first"] else "")
+        src = topo_src(m, rng, supply_centres=rng.random() < 0.3)
+        chain, tag = [], []
+        start = rng.choice(["tables-first", "tables-first", "nothing", "setter", "setter"])
+        if start == "tables-first":
+            chain += [dict(op="read", what="edge_face_distances"), dict(op="read", what="edge_node_distances")]
+        elif start == "setter":
+            chain.append(dict(op="set_distances", node_too=rng.random() < 0.5))
+        tag.append(start)
+        size = m.n_face
+        for k in range(rng.choice([1, 2, 2, 3])):
+            for w in rng.sample(READS, rng.choice([0, 0, 1, 2])) if k > 0 else []:
+                chain.append(dict(op="read", what=w))
+                tag.append("read:" + w.replace("_connectivity", "_conn"))
+            t = rng.choice(["isel", "isel", "isel", "copy", "chunk"])
+            if t == "isel":
+                dim = rng.choice(["n_face", "n_face", "n_face", "n_node", "n_edge"])
+                frac = rng.uniform(0.35, 0.85) if dim == "n_face" else rng.uniform(0.15, 0.5)
+                cnt = max(2, int(frac * size))
+                chain.append(dict(op="isel", dim=dim, pick=[rng.random() for _ in range(cnt)]))
+                size = max(2, int(0.6 * size))
+                tag.append("isel:" + dim)
+            elif t == "copy":
+                chain.append(dict(op="copy"))
+                tag.append("copy")
+            else:
+                chain.append(dict(op="chunk", n=rng.choice([2, 3, 5, 1000])))
+                tag.append("chunk")
+        src["derive"] = dict(chain=chain)
+        src["tag"] += "+chain[" + ",".join(tag) + "]"
         out.append(draw_history(rng, src))
     return out
 
@@ -871,7 +923,8 @@ def run(ctx):
                 "(nodes lon/lat | xyz unit / radius R / mixed radii | both; face centres absent | lon/lat | xyz any radius | both | un-normalised corner "
                 "mean; edge centres likewise; Cartesian-only nodes through Grid.from_dataset), coarse grids with SUPPLIED centres 90° / obtuse / "
                 "179.9999° / exactly 180° apart (exact axis positions, random rotations, and antipodal pairs searched so that the cosine sum "
-                "rounds below -1), sub-grids (Grid.isel, with/without the parent's tables computed first) and dask-chunked grids (Grid.chunk) and a random access history (coordinate reads, "
+                "rounds below -1), derivation chains (1–3 steps of Grid.isel over faces / nodes / edges, copy(), chunk(), with random reads on every intermediate grid, the "
+                "parent's tables computed first, not at all, or assigned through the public setters before edge_face_connectivity exists) and a random access history (coordinate reads, "
                 "normalize_cartesian_coordinates(), order of the two distance reads) before the tables are read; and again with SOURCE-SUPPLIED edge_node/edge_face "
                 "connectivity (own edge order, the two faces of an edge in either order, face 0 listed second, no distances); synthetic MPAS "
                 "files (own edge numbering, dvEdge/dcEdge supplied) read as primal and as dual mesh; the MPAS sample file. Per grid: both "
@@ -908,8 +961,9 @@ def run(ctx):
     for src in coarse_srcs(rng, ctx.n(10, 60), ctx.n(3, 12)):
         judge(ctx, src)
     # sub-grids and dask-chunked grids
-    for src in derived_srcs(rng, ctx.n(9, 45)):
-        ctx.hit("derived:" + src["derive"]["kind"])
+    for src in derived_srcs(rng, ctx.n(24, 120)):
+        for st in src["derive"]["chain"]:
+            ctx.hit("chain:" + st["op"] + (":" + st.get("dim", st.get("what", "")) if st["op"] in ("isel", "read") else ""))
         judge(ctx, src)
     # source-supplied edge tables (own edge order, faces of an edge in either order), no distances
     es = tiny() + meshes.zoo(rng, big=False)
